@@ -39,6 +39,7 @@ CONFIG = dict(
         "Rbgp.Api.Props.listed_same_as_added_nlri",
         "Rbgp.Api.Props.listed_path_same_as_added",
         "Rbgp.Api.Props.next_hop_not_listed",
+        "Rbgp.Api.Props.validation_without_vrps",
         "Rbgp.Api.Props.accepted_reimports_unchanged",
         "Rbgp.Api.Props.from_api_never_panics",
         "Rbgp.Api.Props.net_from_api_never_panics",
@@ -104,7 +105,7 @@ CONFIG = dict(
                            "API messages of these kinds must never panic, and what is accepted must be safe, stable and listed as sent)",
                            "the RPKI validation state ListPath shows (collect_paths phase 2, rpki_validation_to_api): observed through "
                            "the real handlers and judged against Spec.rpkiExpected (RFC 6811 from the request alone), but the theorem "
-                           "side is property C12's; check_run_ok covers the grpc case only without VRPs",
+                           "side is property C12's; check_run_ok covers the grpc case only without VRPs (state NotFound, Props.validation_without_vrps)",
                            "message size on sessions with RFC 8654 extended messages (the consumers encode on a 4096-octet session; the "
                            "value bound of WF is the 65535-octet maximum)",
                            "SingleAsPathMatch and regex matching results in policy evaluation (C14): the harness runs community / "
